@@ -134,3 +134,18 @@ Theorem C15_junk_extends_deadline_refuted :
   junk_deadline 60 0 [20; 40; 60; 80; 100; 120; 140; 160; 180; 200] = 260 /\ ~ junk_keeps_deadline.
 Proof. exact junk_extends_deadline_refuted. Qed.
 Print Assumptions C15_junk_extends_deadline_refuted.
+
+(* Transport::insert_req arms the response timer only when none is running: a
+   stream of new requests cannot keep an older one waiting past its deadline *)
+Theorem C15_new_requests_keep_deadline : forall timeout start arrivals,
+  req_deadline timeout start arrivals = start + timeout.
+Proof. exact new_requests_keep_deadline. Qed.
+Print Assumptions C15_new_requests_keep_deadline.
+
+Theorem C15_response_timeout_respected : response_timeout_respected.
+Proof. exact response_timeout_respected_now. Qed.
+Print Assumptions C15_response_timeout_respected.
+
+Theorem C15_junk_keeps_deadline : junk_keeps_deadline.
+Proof. exact junk_keeps_deadline_now. Qed.
+Print Assumptions C15_junk_keeps_deadline.
